@@ -2,16 +2,26 @@
 //! short mutation histories, and for every adaptor stack (depth <= 2) on top of them.
 //!
 //! Protocol (one case = one base type + one history):
-//!   case <k> <type> <d|u>
-//!   base <op text>            => <TABLE>      after every mutating call: the base graph through `&g`
+//!   case <k> <type> <d|u> dbg=<0|1>
+//!   base <request>            => <TABLE>      after the constructor and after every mutating call: the base graph
+//!                                             through `&g`.  <request> is the call in the REQUEST SYNTAX OF THE OWNING
+//!                                             VERTICAL (C01 Graph, C02 StableGraph, C03 GraphMap, C04 MatrixGraph,
+//!                                             C05 Csr / adj::List): the driver replays it on that vertical's storage
+//!                                             mirror, computes the table from the mirror state (Model/C06Views.lean) and
+//!                                             compares it EXACTLY with the dumped one.
 //!   view <stack>              => <TABLE>      at the final state (and once mid-history): an adaptor stack
+//!   mutview                   => <TABLE>      the table through `&mut g` (every visit trait `na`: `&mut G` forwards
+//!                                             GraphBase, Data, DataMap, DataMapMut only)
+//!   dmap <own|ref|mut|frozen|rev> => nw=<id:w|x,..> ew=<id:w|x,..>   DataMap::node_weight / edge_weight through the
+//!                                             delegation, for the live ids and one dead id each
 //! <stack> is a comma list, innermost adaptor first: `nf:45,rev` = Reversed(&NodeFiltered(&g, mask 45)).
 //!
 //! TABLE = space separated `key=value`, `na` where the (type or adaptor) does not implement the trait
 //! (decided at compile time by autoref specialisation, see `Wr`), `panic` if the call panicked:
 //!   dir ids refs nc nb ix fx cpt er ec eb eix nbr nbo nbi ed edo edi adj
 //! node ids are RAW ids (NodeIndex::index / the GraphMap key), edge ids are codes (index; pair ids
-//! a*100+b, canonicalised to min*100+max for undirected pair-id types; adj::List from*100+succ).
+//! `pcode(a, b)`, canonicalised to `pcode(min, max)` for undirected pair-id types; adj::List `pcode(from, succ)`);
+//! `pcode` is the (injective, unbounded) square-shell pairing function, `Visit.pcode` on the Lean side.
 #![allow(clippy::all)]
 use crate::common::*;
 use crate::rng::Rng;
@@ -55,13 +65,21 @@ impl EId for usize {
         *self
     }
 }
+/// injective pairing of two naturals (no bound on either component): `Visit.pcode`
+pub fn pcode(a: usize, b: usize) -> usize {
+    if a < b {
+        b * b + a
+    } else {
+        a * a + a + b
+    }
+}
 impl<A: NId> EId for (A, A) {
     fn e(&self, sym: bool) -> usize {
         let (a, b) = (self.0.n(), self.1.n());
         if sym && a > b {
-            b * 100 + a
+            pcode(b, a)
         } else {
-            a * 100 + b
+            pcode(a, b)
         }
     }
 }
@@ -74,7 +92,7 @@ impl EId for adj::EdgeIndex<u32> {
             .filter(|t| !t.is_empty())
             .map(|t| t.parse().unwrap())
             .collect();
-        nums[0] * 100 + nums[1]
+        pcode(nums[0], nums[1])
     }
 }
 
@@ -549,18 +567,81 @@ macro_rules! frozen_owned {
     }};
 }
 
-#[allow(dead_code)]
-fn assert_mut_delegation<G: GraphBase + Data>() {}
+// ------------------------------------------------------------------------------------------------
+// the `&mut G` delegation (src/visit/mod.rs: GraphBase, Data; src/data.rs: DataMap, DataMapMut)
+
+/// the table through `&mut g`: which traits `&mut G` implements is decided by the compiler (autoref
+/// specialisation) and PRINTED, so that a delegation added to /repo shows up as a difference of this line
+macro_rules! mutview {
+    ($ctx:expr, $g:expr, $qs:expr, $qe:expr, $sym:expr) => {{
+        let mut c = $g.clone();
+        let m = &mut c;
+        $ctx.line("mutview", &table!(m, $qs, $qe, $sym));
+    }};
+}
+
+/// `DataMap::node_weight` / `edge_weight` through a delegation, for the given ids (`x` = `None`)
+fn dmap_s<G: petgraph::data::DataMap>(g: &G, qn: &[G::NodeId], qe: &[G::EdgeId]) -> String
+where
+    G::NodeId: NId,
+    G::EdgeId: EId,
+    G::NodeWeight: Wt,
+    G::EdgeWeight: Wt,
+{
+    let nw = guard(|| {
+        list(qn.iter().map(|q| match g.node_weight(*q) {
+            Some(w) => format!("{}:{}", q.n(), w.w()),
+            None => format!("{}:x", q.n()),
+        }))
+    });
+    let ew = guard(|| {
+        list(qe.iter().map(|q| match g.edge_weight(*q) {
+            Some(w) => format!("{}:{}", q.e(false), w.w()),
+            None => format!("{}:x", q.e(false)),
+        }))
+    });
+    format!("nw={} ew={}", nw, ew)
+}
+
+/// DataMap through the type itself, `&G`, `&mut G`, `Frozen<G>`, `Reversed<&G>`: live ids + one dead id each
+macro_rules! dmaps {
+    ($ctx:expr, $g:expr, $qn:expr, $qe:expr) => {{
+        let qn = $qn;
+        let qe = $qe;
+        $ctx.line("dmap own", &dmap_s(&$g, qn, qe));
+        {
+            let r = &$g;
+            $ctx.line("dmap ref", &dmap_s(&r, qn, qe));
+        }
+        {
+            let mut c = $g.clone();
+            let m = &mut c;
+            $ctx.line("dmap mut", &dmap_s(&m, qn, qe));
+        }
+        {
+            let mut c = $g.clone();
+            let fr = Frozen::new(&mut c);
+            $ctx.line("dmap frozen", &dmap_s(&fr, qn, qe));
+        }
+        {
+            let rv = Reversed(&$g);
+            $ctx.line("dmap rev", &dmap_s(&rv, qn, qe));
+        }
+    }};
+}
 
 // ------------------------------------------------------------------------------------------------
-// histories per base type
+// histories per base type.  Every mutating call is printed in the request syntax of the vertical that owns
+// the storage type (its Lean mirror replays it): C01 `Graph`, C02 `StableGraph`, C03 `GraphMap`,
+// C04 `MatrixGraph`, C05 `Csr` and `adj::List`.
 
-/// op kinds of one history: 0 add_node, 1 add_edge, 2 remove_node, 3 remove_edge, 4 update_edge, 5 misc
+/// op kinds of one history: 0 add_node, 1 add_edge, 2 remove_node, 3 remove_edge, 4 update_edge, 5 misc,
+/// 6 weight write through the `&mut G` delegation (DataMapMut)
 /// (grow to 2..6 nodes, add edges, a removal-heavy phase that leaves vacancies, regrowth that reuses them)
 fn plan(rng: &mut Rng) -> Vec<usize> {
     if rng.chance(10) {
         // unstructured: tiny and empty graphs
-        return (0..4 + rng.below(14)).map(|_| rng.weighted(&[22, 40, 10, 10, 6, 2])).collect();
+        return (0..4 + rng.below(14)).map(|_| rng.weighted(&[22, 40, 10, 10, 6, 2, 2])).collect();
     }
     let n0 = 2 + rng.below(5);
     let mut v: Vec<usize> = vec![0; n0];
@@ -568,16 +649,21 @@ fn plan(rng: &mut Rng) -> Vec<usize> {
         v.push(if rng.chance(12) { 4 } else { 1 });
     }
     for _ in 0..rng.below(6) {
-        v.push(rng.weighted(&[10, 25, 30, 30, 5, 0]));
+        v.push(rng.weighted(&[10, 25, 30, 30, 5, 0, 4]));
     }
     for _ in 0..rng.below(6) {
-        v.push(rng.weighted(&[35, 55, 0, 0, 10, 0]));
+        v.push(rng.weighted(&[35, 55, 0, 0, 10, 0, 3]));
     }
-    if rng.chance(6) {
+    if rng.chance(8) {
         let at = rng.below(v.len() + 1);
         v.insert(at, 5);
     }
     v
+}
+
+/// the build profile (the storage mirrors of C02 / C05 have a `debug` parameter: `debug_assert!`s)
+fn dbg_word() -> &'static str {
+    if cfg!(debug_assertions) { "dbg=1" } else { "dbg=0" }
 }
 
 fn wt(rng: &mut Rng) -> i32 {
@@ -585,10 +671,15 @@ fn wt(rng: &mut Rng) -> i32 {
 }
 
 macro_rules! graph_like {
-    ($fname:ident, $T:ident, $Ty:ty, $tag:expr, $d:expr) => {
+    ($fname:ident, $T:ident, $Ty:ty, $tag:expr, $d:expr, $ctor:expr) => {
         fn $fname(ctx: &mut Ctx, rng: &mut Rng, case: u64) {
-            ctx.raw(&format!("case {} {} {}", case, $tag, if $d { "d" } else { "u" }));
+            ctx.raw(&format!("case {} {} {} {}", case, $tag, if $d { "d" } else { "u" }, dbg_word()));
             let mut g: $T<i32, i32, $Ty, u32> = $T::default();
+            {
+                let qs: Vec<_> = g.node_indices().collect();
+                let qe: Vec<_> = g.edge_indices().collect();
+                ctx.line(&format!("base {}", $ctor), &table!(&g, &qs[..], &qe[..], false));
+            }
             let pl = plan(rng);
             let nops = pl.len();
             let mid = rng.below(nops);
@@ -601,15 +692,15 @@ macro_rules! graph_like {
                     0 => {
                         if live.len() >= 6 { continue; }
                         nodes_added += 1;
-                        let n = g.add_node(10 + nodes_added);
-                        format!("add_node {}", n.index())
+                        g.add_node(10 + nodes_added);
+                        format!("add_node {}", 10 + nodes_added)
                     }
                     1 => {
                         let a = *rng.pick(&live);
                         let b = if rng.chance(18) { a } else { *rng.pick(&live) };
                         let w = wt(rng);
-                        let e = g.add_edge(a, b, w);
-                        format!("add_edge {} {} {} {}", a.index(), b.index(), w, e.index())
+                        g.add_edge(a, b, w);
+                        format!("add_edge {} {} {}", a.index(), b.index(), w)
                     }
                     2 => {
                         let a = *rng.pick(&live);
@@ -629,8 +720,27 @@ macro_rules! graph_like {
                         g.update_edge(a, b, w);
                         format!("update_edge {} {} {}", a.index(), b.index(), w)
                     }
+                    5 => match rng.below(3) {
+                        0 => { g.clear_edges(); "clear_edges".to_string() }
+                        1 => { g.reverse(); "reverse".to_string() }
+                        _ => { g.clear(); nodes_added = 0; "clear".to_string() }
+                    },
                     _ => {
-                        if rng.chance(50) { g.clear_edges(); "clear_edges".to_string() } else { g.reverse(); "reverse".to_string() }
+                        // a weight write that goes through `DataMapMut for &mut G`
+                        use petgraph::data::DataMapMut;
+                        if edges.is_empty() || rng.chance(50) {
+                            let a = *rng.pick(&live);
+                            let w = 20 + wt(rng);
+                            let mut m = &mut g;
+                            *DataMapMut::node_weight_mut(&mut m, a).unwrap() = w;
+                            format!("node_weight_mut {} {}", a.index(), w)
+                        } else {
+                            let e = *rng.pick(&edges);
+                            let w = wt(rng);
+                            let mut m = &mut g;
+                            *DataMapMut::edge_weight_mut(&mut m, e).unwrap() = w;
+                            format!("edge_weight_mut {} {}", e.index(), w)
+                        }
                     }
                 };
                 let qs: Vec<_> = g.node_indices().collect();
@@ -642,39 +752,56 @@ macro_rules! graph_like {
             }
             let qs: Vec<_> = g.node_indices().collect();
             let qe: Vec<_> = g.edge_indices().collect();
-            ctx.line("base final", &table!(&g, &qs[..], &qe[..], false));
             views!(ctx, rng, &g, &qs[..], &qe[..], false, $d, true, true);
             frozen_owned!(ctx, g, &qs[..], &qe[..], false);
+            mutview!(ctx, g, &qs[..], &qe[..], false);
+            {
+                // DataMap: every index up to the bound (live and vacant) and one beyond
+                let qn: Vec<_> = (0..g.node_bound() + 1 + rng.below(2)).map(petgraph::graph::NodeIndex::new).collect();
+                let qd: Vec<_> = (0..g.edge_bound() + 1 + rng.below(2)).map(petgraph::graph::EdgeIndex::new).collect();
+                dmaps!(ctx, g, &qn[..], &qd[..]);
+            }
         }
     };
 }
-graph_like!(run_graph_d, Graph, Directed, "graph", true);
-graph_like!(run_graph_u, Graph, Undirected, "graph", false);
-graph_like!(run_stable_d, StableGraph, Directed, "stable", true);
-graph_like!(run_stable_u, StableGraph, Undirected, "stable", false);
+graph_like!(run_graph_d, Graph, Directed, "graph", true, "new new");
+graph_like!(run_graph_u, Graph, Undirected, "graph", false, "new new_undirected");
+graph_like!(run_stable_d, StableGraph, Directed, "stable", true, "new default");
+graph_like!(run_stable_u, StableGraph, Undirected, "stable", false, "new default");
 
 macro_rules! map_like {
     ($fname:ident, $Ty:ty, $d:expr) => {
         fn $fname(ctx: &mut Ctx, rng: &mut Rng, case: u64) {
-            ctx.raw(&format!("case {} map {}", case, if $d { "d" } else { "u" }));
+            ctx.raw(&format!("case {} map {} {}", case, if $d { "d" } else { "u" }, dbg_word()));
             let mut g: GraphMap<u32, i32, $Ty> = GraphMap::new();
+            let sym = !$d;
+            {
+                let qs: Vec<u32> = g.nodes().collect();
+                let qe: Vec<(u32, u32)> = Vec::new();
+                ctx.line("base init 0 0 0", &table!(&g, &qs[..], &qe[..], sym));
+            }
             let pl = plan(rng);
             let nops = pl.len();
             let mid = rng.below(nops);
-            let sym = !$d;
+            // node values: usually small, in one case out of eight anywhere below 2^32 (pair edge ids are
+            // `pcode` codes, which have no bound)
+            let big = rng.chance(12);
             for step in 0..nops {
                 let live: Vec<u32> = g.nodes().collect();
+                let fresh = |rng: &mut Rng| -> u32 {
+                    if big && rng.chance(40) { [99, 100, 101, 250, 1000, 65535, 65536, 4000000000u32][rng.below(8)] } else { rng.below(12) as u32 }
+                };
                 let key = |rng: &mut Rng, live: &Vec<u32>| -> u32 {
-                    if !live.is_empty() && (live.len() >= 6 || rng.chance(70)) { *rng.pick(live) } else { rng.below(12) as u32 }
+                    if !live.is_empty() && (live.len() >= 6 || rng.chance(70)) { *rng.pick(live) } else { fresh(rng) }
                 };
                 let k = pl[step];
                 let op: String = match k {
                     0 => {
-                        let a = if live.len() >= 6 { key(rng, &live) } else { rng.below(12) as u32 };
+                        let a = if live.len() >= 6 { key(rng, &live) } else { fresh(rng) };
                         g.add_node(a);
                         format!("add_node {}", a)
                     }
-                    1 | 4 => {
+                    1 | 4 | 6 => {
                         let a = key(rng, &live);
                         let b = if rng.chance(18) { a } else { key(rng, &live) };
                         let w = wt(rng);
@@ -693,22 +820,25 @@ macro_rules! map_like {
                         if es.is_empty() { continue; }
                         let (a, b) = *rng.pick(&es);
                         let (a, b) = if rng.chance(50) { (b, a) } else { (a, b) };
-                        let r = g.remove_edge(a, b);
-                        format!("remove_edge {} {} {}", a, b, r.is_some())
+                        g.remove_edge(a, b);
+                        format!("remove_edge {} {}", a, b)
                     }
                 };
                 let qs: Vec<u32> = g.nodes().collect();
                 let qe: Vec<(u32, u32)> = g.all_edges().map(|(a, b, _)| (a, b)).collect();
                 ctx.line(&format!("base {}", op), &table!(&g, &qs[..], &qe[..], sym));
-                if step == mid && step + 1 != nops {
+                if step == mid && step + 1 != nops && qs.iter().all(|q| *q < 16) {
                     views!(ctx, rng, &g, &qs[..], &qe[..], sym, $d, true, false);
                 }
             }
             let qs: Vec<u32> = g.nodes().collect();
             let qe: Vec<(u32, u32)> = g.all_edges().map(|(a, b, _)| (a, b)).collect();
-            ctx.line("base final", &table!(&g, &qs[..], &qe[..], sym));
-            views!(ctx, rng, &g, &qs[..], &qe[..], sym, $d, true, true);
+            // node filters are bit masks over the raw ids: adaptor stacks only over small node values
+            if qs.iter().all(|q| *q < 16) {
+                views!(ctx, rng, &g, &qs[..], &qe[..], sym, $d, true, true);
+            }
             frozen_owned!(ctx, g, &qs[..], &qe[..], sym);
+            mutview!(ctx, g, &qs[..], &qe[..], sym);
         }
     };
 }
@@ -718,15 +848,24 @@ map_like!(run_map_u, Undirected, false);
 macro_rules! matrix_like {
     ($fname:ident, $Ty:ty, $d:expr) => {
         fn $fname(ctx: &mut Ctx, rng: &mut Rng, case: u64) {
-            ctx.raw(&format!("case {} matrix {}", case, if $d { "d" } else { "u" }));
+            ctx.raw(&format!("case {} matrix {} {}", case, if $d { "d" } else { "u" }, dbg_word()));
             type M = MatrixGraph<i32, i32, std::collections::hash_map::RandomState, $Ty, Option<i32>, u16>;
-            let mut g: M = if rng.chance(50) { M::with_capacity(rng.below(5)) } else { M::default() };
+            let no_qe: Vec<(petgraph::graph::NodeIndex<u16>, petgraph::graph::NodeIndex<u16>)> = Vec::new();
+            let sym = !$d;
+            let (mut g, ctor): (M, String) = if rng.chance(50) {
+                let k = rng.below(5);
+                (M::with_capacity(k), format!("new with_capacity {}", k))
+            } else {
+                (M::default(), "new default".to_string())
+            };
+            {
+                let qs: Vec<_> = g.node_identifiers().collect();
+                ctx.line(&format!("base {}", ctor), &table!(&g, &qs[..], &no_qe[..], sym));
+            }
             let pl = plan(rng);
             let nops = pl.len();
             let mid = rng.below(nops);
-            let sym = !$d;
             let mut nodes_added = 0;
-            let no_qe: Vec<(petgraph::graph::NodeIndex<u16>, petgraph::graph::NodeIndex<u16>)> = Vec::new();
             for step in 0..nops {
                 let live: Vec<_> = g.node_identifiers().collect();
                 let k = if live.is_empty() { 0 } else { pl[step] };
@@ -734,15 +873,20 @@ macro_rules! matrix_like {
                     0 => {
                         if live.len() >= 6 { continue; }
                         nodes_added += 1;
-                        let n = g.add_node(10 + nodes_added);
-                        format!("add_node {}", n.index())
+                        g.add_node(10 + nodes_added);
+                        format!("add_node {}", 10 + nodes_added)
                     }
-                    1 | 4 => {
+                    1 | 4 | 6 => {
                         let a = *rng.pick(&live);
                         let b = if rng.chance(18) { a } else { *rng.pick(&live) };
                         let w = wt(rng);
-                        if g.has_edge(a, b) { g.update_edge(a, b, w); } else { g.add_edge(a, b, w); }
-                        format!("add_edge {} {} {}", a.index(), b.index(), w)
+                        if g.has_edge(a, b) {
+                            g.update_edge(a, b, w);
+                            format!("update_edge {} {} {}", a.index(), b.index(), w)
+                        } else {
+                            g.add_edge(a, b, w);
+                            format!("add_edge {} {} {}", a.index(), b.index(), w)
+                        }
                     }
                     2 => {
                         let a = *rng.pick(&live);
@@ -766,8 +910,8 @@ macro_rules! matrix_like {
                 }
             }
             let qs: Vec<_> = g.node_identifiers().collect();
-            ctx.line("base final", &table!(&g, &qs[..], &no_qe[..], sym));
             views!(ctx, rng, &g, &qs[..], &no_qe[..], sym, $d, true, true);
+            mutview!(ctx, g, &qs[..], &no_qe[..], sym);
         }
     };
 }
@@ -777,7 +921,7 @@ matrix_like!(run_matrix_u, Undirected, false);
 macro_rules! csr_like {
     ($fname:ident, $Ty:ty, $d:expr, $init:expr) => {
         fn $fname(ctx: &mut Ctx, rng: &mut Rng, case: u64) {
-            ctx.raw(&format!("case {} csr {}", case, if $d { "d" } else { "u" }));
+            ctx.raw(&format!("case {} csr {} {}", case, if $d { "d" } else { "u" }, dbg_word()));
             let (mut g, op0): (Csr<i32, i32, $Ty, u32>, String) = $init(rng);
             let no_qe: Vec<usize> = Vec::new();
             {
@@ -789,19 +933,19 @@ macro_rules! csr_like {
             let mid = rng.below(nops);
             for step in 0..nops {
                 let n = g.node_count();
-                let k = if n == 0 { 0 } else { [0, 1, 1, 1, 1, 2][pl[step]] };
+                let k = if n == 0 { 0 } else { [0, 1, 1, 1, 1, 2, 1][pl[step]] };
                 let op: String = match k {
                     0 => {
                         if n >= 6 { continue; }
-                        let i = g.add_node(10 + n as i32);
-                        format!("add_node {}", i)
+                        g.add_node(10 + n as i32);
+                        format!("add_node {}", 10 + n)
                     }
                     1 => {
                         let a = rng.below(n) as u32;
                         let b = if rng.chance(18) { a } else { rng.below(n) as u32 };
                         let w = wt(rng);
-                        let r = g.add_edge(a, b, w);
-                        format!("add_edge {} {} {} {}", a, b, w, r)
+                        g.add_edge(a, b, w);
+                        format!("add_edge {} {} {}", a, b, w)
                     }
                     _ => { g.clear_edges(); "clear_edges".to_string() }
                 };
@@ -812,8 +956,8 @@ macro_rules! csr_like {
                 }
             }
             let qs: Vec<u32> = g.node_identifiers().collect();
-            ctx.line("base final", &table!(&g, &qs[..], &no_qe[..], false));
             views!(ctx, rng, &g, &qs[..], &no_qe[..], false, $d, $d, true);
+            mutview!(ctx, g, &qs[..], &no_qe[..], false);
         }
     };
 }
@@ -830,14 +974,20 @@ fn csr_init_d(rng: &mut Rng) -> (Csr<i32, i32, Directed, u32>, String) {
             }
         }
         if let Ok(c) = Csr::from_sorted_edges(&es) {
-            return (c, format!("from_sorted_edges {}", es.len()));
+            let l: Vec<String> = es.iter().map(|(a, b, w)| format!("{}:{}:{}", a, b, w)).collect();
+            return (c, format!("from_sorted {}", rows(l)));
         }
+    }
+    if rng.chance(20) {
+        let n = rng.below(4);
+        return (Csr::with_nodes(n), format!("with_nodes {}", n));
     }
     (Csr::new(), "new".to_string())
 }
 fn csr_init_u(rng: &mut Rng) -> (Csr<i32, i32, Undirected, u32>, String) {
     if rng.chance(30) {
-        (Csr::with_nodes(rng.below(4)), "with_nodes".to_string())
+        let n = rng.below(4);
+        (Csr::with_nodes(n), format!("with_nodes {}", n))
     } else {
         (Csr::new(), "new".to_string())
     }
@@ -847,20 +997,30 @@ csr_like!(run_csr_u, Undirected, false, csr_init_u);
 
 fn run_list(ctx: &mut Ctx, rng: &mut Rng, case: u64) {
     use petgraph::data::Build;
-    ctx.raw(&format!("case {} list d", case));
+    ctx.raw(&format!("case {} list d {}", case, dbg_word()));
     let mut g: adj::List<i32, u32> = adj::List::new();
     let no_qe: Vec<adj::EdgeIndex<u32>> = Vec::new();
+    {
+        let qs: Vec<u32> = g.node_identifiers().collect();
+        ctx.line("base new", &table!(&g, &qs[..], &no_qe[..], false));
+    }
     let pl = plan(rng);
     let nops = pl.len();
     let mid = rng.below(nops);
     for step in 0..nops {
         let n = g.node_count();
-        let k = if n == 0 { 0 } else { [0, 1, 1, 1, 2, 3][pl[step]] };
+        let k = if n == 0 { 0 } else { [0, 1, 1, 1, 2, 3, 1][pl[step]] };
         let op: String = match k {
             0 => {
                 if n >= 6 { continue; }
-                let i = if rng.chance(50) { g.add_node() } else { g.add_node_with_capacity(rng.below(3)) };
-                format!("add_node {}", i)
+                if rng.chance(50) {
+                    g.add_node();
+                    "add_node".to_string()
+                } else {
+                    let c = rng.below(3);
+                    g.add_node_with_capacity(c);
+                    format!("add_node_cap {}", c)
+                }
             }
             1 => {
                 let a = rng.below(n) as u32;
@@ -885,15 +1045,19 @@ fn run_list(ctx: &mut Ctx, rng: &mut Rng, case: u64) {
         }
     }
     let qs: Vec<u32> = g.node_identifiers().collect();
-    ctx.line("base final", &table!(&g, &qs[..], &no_qe[..], false));
     views!(ctx, rng, &g, &qs[..], &no_qe[..], false, true, true, true);
     frozen_owned!(ctx, g, &qs[..], &no_qe[..], false);
+    mutview!(ctx, g, &qs[..], &no_qe[..], false);
+    {
+        let mut qn = qs.clone();
+        qn.push(g.node_count() as u32 + rng.below(2) as u32);
+        let qd: Vec<adj::EdgeIndex<u32>> = g.edge_references().map(|e| e.id()).collect();
+        dmaps!(ctx, g, &qn[..], &qd[..]);
+    }
 }
 
 pub fn run(ctx: &mut Ctx, case: u64) {
     let mut rng = Rng::for_case(ctx.seed, "C06", case);
-    // `&mut G` forwards GraphBase and Data only (no methods to observe): checked at compile time
-    assert_mut_delegation::<&mut Graph<i32, i32>>();
     // a panic outside the guarded trait calls (e.g. while building a filter from the graph's own visit map)
     // must not take the remaining cases down: it is reported as an unparsable table
     let r = catch(|| match case % 11 {
